@@ -7,6 +7,26 @@ Top(A, L0, L1, B) can be built directly with any class at any position, so
 from pymtl3 import *
 
 
+class LeafBase(Component):
+  pass
+
+
+def _touch(s, v):
+  s.touched = int(v)
+
+
+def _nb(s, v):
+  s.nbv = int(v)
+
+
+def add_methods(cls):
+  """every leaf class also offers a method port and a non-blocking method interface that the PARENT level calls, constrains and
+  connects (pymtl3 only looks for decorated methods in the class' own namespace, so they are put there)"""
+  cls.touch = method_port(_touch)
+  cls.nb = non_blocking(lambda s: True)(_nb)
+  return cls
+
+
 def add_lb(s):
   """every leaf also has a loop-back pair: the parent connects lb_out of a child back to lb_in of the SAME child"""
   s.lb_in = InPort(Bits4)
@@ -21,8 +41,15 @@ def add_lb(s):
   def up_lb_seen():
     s.lb_seen @= s.lb_in ^ 1
 
+  s.ff_in = InPort(Bits4)                  # written by an update_ff block of the parent
+  s.ff_seen = OutPort(Bits4)
 
-class Pass(Component):
+  @update
+  def up_ff_seen():
+    s.ff_seen @= s.ff_in + 2
+
+
+class Pass(LeafBase):
   def construct(s, inc=1):
     s.in_ = InPort(Bits4)
     s.out = OutPort(Bits4)
@@ -33,7 +60,7 @@ class Pass(Component):
       s.out @= s.in_ + inc
 
 
-class Reg(Component):
+class Reg(LeafBase):
   def construct(s):
     s.in_ = InPort(Bits4)
     s.out = OutPort(Bits4)
@@ -55,7 +82,7 @@ class Inner(Component):
       s.y @= s.x ^ s.k
 
 
-class Nest(Component):
+class Nest(LeafBase):
   """own child + constant connection + slice connection + U<U constraint"""
   def construct(s):
     s.in_ = InPort(Bits4)
@@ -81,7 +108,7 @@ class Nest(Component):
     s.add_constraints(U(up_nest_b) < U(up_nest_a))
 
 
-class Con(Component):
+class Con(LeafBase):
   """explicit RD/WR constraints on its own signals"""
   def construct(s):
     s.in_ = InPort(Bits4)
@@ -108,7 +135,7 @@ class Con(Component):
     )
 
 
-class Lam(Component):
+class Lam(LeafBase):
   def construct(s):
     s.in_ = InPort(Bits4)
     s.out = OutPort(Bits4)
@@ -118,7 +145,7 @@ class Lam(Component):
     s.out //= lambda: s.h ^ 6
 
 
-class Sl(Component):
+class Sl(LeafBase):
   """update blocks that use slices (slice signals are created while elaborating the blocks)"""
   def construct(s):
     s.in_ = InPort(Bits4)
@@ -144,7 +171,7 @@ class Counter(Component):
     return s.cnt
 
 
-class CL(Component):
+class CL(LeafBase):
   """cycle-level: an internal callee component, update_once callers and method constraints"""
   def construct(s):
     s.in_ = InPort(Bits4)
@@ -174,7 +201,7 @@ class Scale(Component):
     pass
 
 
-class MNet(Component):
+class MNet(LeafBase):
   """an internal method net: a CallerPort connected to a child's CalleePort"""
   def construct(s):
     s.in_ = InPort(Bits4)
@@ -189,6 +216,7 @@ class MNet(Component):
       s.out @= trunc(s.call(zext(s.in_, 8)), 4) + 1
 
 
+for _c in (Pass, Reg, Nest, Con, Lam, Sl, CL, MNet): add_methods(_c)
 CATALOG = {"Pass": Pass, "Reg": Reg, "Nest": Nest, "Con": Con, "Lam": Lam, "Sl": Sl, "CL": CL, "MNet": MNet}
 
 
@@ -220,6 +248,7 @@ class Top(Component):
     s.o5 = OutPort(Bits4)
     s.o6 = OutPort(Bits4)
     s.o7 = OutPort(Bits4)
+    s.o8 = OutPort(Bits4)
     s.a = A()
     s.l = [L0(), L1()]
     s.mid = Mid(B, M0)
@@ -256,6 +285,28 @@ class Top(Component):
       s.o5 @= s.mid.b.out ^ s.l[1].lb_seen  # the top reads an out port two levels down
 
     s.o6 //= s.mid.lb_o
+
+    @update_ff
+    def ff_to_child():
+      s.l[0].ff_in <<= s.in_               # the parent registers a value INTO a port of a child
+    s.o8 //= s.l[0].ff_seen
+
+    s.tc = CallerPort()
+    s.tc //= s.l[0].touch                  # a method connection made by the parent
+
+    @update_once
+    def up_touch():
+      s.a.touch(s.in_)                     # the parent calls a method port of a child ...
+      s.mid.b.touch(s.in_)                 # ... and of a component two levels down
+      s.tc(s.in_)
+      if s.l[1].nb.rdy():                  # non-blocking interface of a list element
+        s.l[1].nb(s.in_)
+
+    s.add_constraints(
+      U(up_l0) < RD(s.a.lb_seen),          # value constraints of the parent on ports of a child
+      WR(s.a.in_) < U(up_w),
+      M(s.a.touch) < U(up_w),              # method constraint of the parent on a method port of a child
+    )
 
     @update
     def up_slices():
